@@ -134,7 +134,7 @@ def roundtrip_post(pre, args, kwargs, result):
     ctx.check(emitted <= base, "no-id-for-generated", lambda: dict(wit, emitted_ids=sorted(map(str, emitted)), explicit=sorted(map(str, base))), facts)
     # defaults are kept (node by node, modulo the names of generated ids)
     d1, d2 = defaults_of(self, graph, top, info), defaults_of(back, g2, t2, i2)
-    if d1 or d2 or is_cfg:
+    if is_cfg:        # the statement asks for the defaults of configurators (plog.from_json does not know the configurator classes)
         # every default of the original is still there (the copy may carry the same default on a helper node as well: the
         # inner Any of a defaulted Xor receives it from the Xor -- seen with models built by the repository's own tests)
         ctx.check(set(map(repr, d1)) <= set(map(repr, d2)), "defaults-kept", lambda: dict(wit, before=d1, after=d2), facts)
@@ -228,7 +228,21 @@ def known_witness():
         return None
 
 
+def int_alternative_case(rng):
+    items = rng.sample(confgen.ITEMS[:6], 3)
+    b = rng.choice([[0, 3], [-2, 2], [0, 2]])
+    args = [{"k": "var", "id": items[0], "b": b}] + [confgen.V(i_) for i_ in items[1:]]
+    rule = {"k": rng.choice(["ccAny", "ccAny", "ccXor"]), "id": rng.choice([None, "RI"]), "args": args, "default": [items[0]]}
+    rules = [rule]
+    if rng.random() < 0.5:
+        rules.append({"k": "Imply", "id": None, "args": [{"k": "All", "id": None, "args": [confgen.V("g")]}, dict(rule, id=None, args=[dict(a) for a in args])]} if False else
+                     {"k": "AtMost", "id": None, "args": [confgen.V("g"), confgen.V("h")], "value": 1})
+    return {"recipe": {"k": "Stingy", "id": "main", "args": rules}, "top_call": True}
+
+
 def gen_case(rng, tier, ctx, i):
+    if rng.random() < 0.06:
+        return int_alternative_case(rng)
     if i == 0 and ctx.seed % 1000 == 0:
         w = known_witness()            # the recorded witness of the open finding is replayed in every run
         if w is not None:
